@@ -428,6 +428,15 @@ func (cp *chargePoint) Stop() {
 	// late cleanup, nor inherit the callbacks of this one.
 	// No callback invocation, since the user manually stopped the client.
 	cp.clearCallbacks(false)
+	// Outcomes of this session that were not served yet (the callback handler was busy) are discarded as well:
+	// they must not be taken for outcomes of a session started afterwards.
+	for drained := false; !drained; {
+		select {
+		case <-cp.outcomeHandler:
+		default:
+			drained = true
+		}
+	}
 
 	if cp.errC != nil {
 		close(cp.errC)
